@@ -286,7 +286,12 @@ def r_once(cx):
                         cx.ob("R-ONCE", "%s/%s" % (cpath, f.lname(l)), True,
                               "%s: `%s` is updated element-wise by the loop variable" % (cpath, f.lname(l)),
                               cx.where(f.term(lp.header)["span"]), nontrivial=False)
-    cx.count("R-ONCE", "loop_updates", n)
+    if n == 0:
+        # no loop in the constructor carries a value around (e.g. the updates are written through `iter_mut`, or
+        # unrolled): nothing can be applied once per pass
+        cx.ob("R-ONCE", "helmert/no-carried-update", True, "helmert: no constructor loop carries an accumulated value",
+              cx.where(cx.f.fn(sorted(c for c, k in reg.ctors.items() if "helmert" in k.names)[0]).d["span"]), nontrivial=False)
+    cx.count("R-ONCE", "constructors", sum(1 for c, k in reg.ctors.items() if "helmert" in k.names))
 
 
 def _iter_locals(f, lp):
